@@ -362,14 +362,19 @@ def misc_rewrites(src, log):
                % (v, e, v, v, v, v, x, v, v, v, v, pred, v, v))
         src = src[:m.start()] + new + src[m.end():]
         log.append('R9 filter count: %s' % e)
-    # L1 / M1 const item types with elided lifetimes on slices
-    def fix_const(mm):
-        ty = mm.group(3)
-        if '&[' in ty or '& [' in ty:
-            log.append('L1/M1 const %s' % mm.group(2))
-            return '%sexec const %s: %s =' % (mm.group(1), mm.group(2), ty.replace('&[', "&'static ["))
-        return mm.group(0)
-    src = re.sub(r'(^\s*(?:pub(?:\([a-z]+\))?\s+)?)const\s+(\w+)\s*:\s*([^=]+?)\s*=', fix_const, src, flags=re.M)
+    # L1 / M1 const items whose type holds slices with elided lifetimes:
+    #   const N: [&[T]; K] = INIT;  ->  exec const N: [&'static [T]; K] /*@const N*/ { INIT }
+    # (`exec` is a Verus mode keyword; the block form lets a contract attach `ensures` to the constant)
+    while True:
+        msk = mask(src)
+        m = re.search(r'(?<!exec )\bconst\s+(\w+)\s*:\s*([^=]*?&\s*\[[^=]*?)\s*=', msk)
+        if not m:
+            break
+        semi = item_end(msk, m.end()) - 1
+        ty = src[m.start(2):m.end(2)].replace('&[', "&'static [")
+        init = src[m.end():semi].strip()
+        src = src[:m.start()] + "exec const %s: %s /*@const %s*/ { %s }" % (m.group(1), ty, m.group(1), init) + src[semi + 1:]
+        log.append('L1/M1 const %s' % m.group(1))
     return src
 
 
